@@ -640,7 +640,7 @@ impl CCtx {
 fn fc_atom(i: u64) -> E {
     if i == 0 { var(DSP_IN) } else { num(1.0) }
 }
-const FC_RADIX: u64 = 30;
+const FC_RADIX: u64 = 32;
 pub fn fc_count(k: u32) -> u64 {
     seq_count(FC_RADIX, k)
 }
@@ -777,6 +777,17 @@ fn fc_stmt(c: &mut CCtx, o: u64) -> Option<()> {
             c.ops.push(format!("let {f} = idf"));
             c.stmts.push(let_(&f, var("idf")));
             c.vars.push((f, Ty::C1, false));
+        }
+        30 | 31 => {
+            // the closure a factory returns is applied on the spot: mkadd(a)(b)
+            let r = c.fresh("r");
+            c.need("mkadd");
+            let s1 = c.sites.next();
+            let s2 = c.sites.next();
+            let e = E::CallE(Box::new(call("mkadd", vec![a.clone()], s1)), vec![num(if o == 30 { 1.0 } else { 2.5 })], s2);
+            c.ops.push(format!("let {r} = mkadd({})({})", pe(&a, 0), if o == 30 { "1.0" } else { "2.5" }));
+            c.stmts.push(let_(&r, e));
+            c.vars.push((r, Ty::F, false));
         }
         28 | 29 => {
             // conditional statements of unit type: an assignment under `if` without else, and with unit arms on both sides
